@@ -230,6 +230,7 @@ def run_generator(ctx, cfg):
         r.jds_in = list(r.jds)
         r.out = gen.random_clustered_graph(r.jds)
         r.first_d = first_d
+        r.first_rng = list(ctx.rng_log[:n_rng])
         del ctx.rng_log[:n_rng]
     r.N = cfg["N"]
     r.d = [[ctx.fork_int(x) for x in row] for row in r.jds_in]  # concrete by now (forked at itertools.repeat)
